@@ -47,20 +47,22 @@ class FakeMRIData:
         self,
         spatial_shape: Union[List[int], Tuple[int, ...]],
         num_coils: int,
+        seed: Optional[int] = None,
     ) -> np.ndarray:
         """
         Parameters
         ----------
         spatial_shape: List of ints or tuple of ints.
         num_coils: int
+        seed: int or None
         """
 
-        samples = self.make_blobs(spatial_shape, num_coils)
+        samples = self.make_blobs(spatial_shape, num_coils, seed)
 
         image = self._get_image_from_samples(samples, spatial_shape)
         image = image[None]
         if num_coils > 1:
-            sens_maps = simulate_sensitivity_maps(spatial_shape[-2:], num_coils)
+            sens_maps = simulate_sensitivity_maps(spatial_shape[-2:], num_coils, seed=seed)
 
             image = image * (sens_maps if self.ndim == 2 else sens_maps[:, None])
 
@@ -160,7 +162,7 @@ class FakeMRIData:
             name = [name[0] + f"{_:04}" for _ in range(1, sample_size + 1)]
 
         for idx in range(sample_size):
-            sample[idx]["kspace"] = self.get_kspace(spatial_shape, num_coils)
+            sample[idx]["kspace"] = self.get_kspace(spatial_shape, num_coils, None if seed is None else seed + idx)
             sample[idx]["reconstruction_rss"] = root_sum_of_squares(sample[idx]["kspace"], coil_dim=1)
             sample[idx]["attrs"] = self.set_attrs(sample[idx])
             sample[idx]["filename"] = name[idx]
